@@ -95,6 +95,12 @@ Next == Refuse \/ Sort \/ Open \/ Claim \/ Finish \/ Collect \/ Write
 Spec == Init /\ [][Next]_vars
 
 \* ---- properties --------------------------------------------------------------------
+\* the program always comes to an end: no reachable state is stuck before the CSV is written or the
+\* input refused, and under weak fairness of the workers every run terminates (no claim / finish cycle)
+Terminal == phase \in {"refused", "written"}
+NoStuckState == Terminal \/ ENABLED Next
+FairSpec == Spec /\ WF_vars(Next)
+Terminates == <>Terminal
 RefusedIffRequired == (phase = "refused") => Refused(files)
 NeverWritesWhenRefused == Refused(files) => phase \in {"start", "refused"}
 RowsCorrect == phase = "written" => RowsMeetRequirement(files, rows)
